@@ -1,7 +1,9 @@
 //! mjv — bounded-exhaustive checks for the minijinja properties C01..C20.
 mod core;
 mod big;
+mod c07;
 mod c08;
+mod vals;
 mod c09;
 
 fn main() {
@@ -12,6 +14,7 @@ fn main() {
     }
     let args = core::parse_args(&argv[2..]);
     let code = match argv[1].to_ascii_lowercase().as_str() {
+        "c07" => c07::main(args),
         "c08" => c08::main(args),
         "c09" => c09::main(args),
         other => {
